@@ -281,12 +281,23 @@ class AsyncConnectionPool(AsyncRequestInterface):
 
         # First we handle cleaning up any connections that are closed,
         # have expired their keep-alive, or surplus idle connections.
+        in_use = [request.connection for request in self._requests]
         for connection in list(self._connections):
             if connection.is_closed():
                 # log: "removing closed connection"
                 self._connections.remove(connection)
             elif connection.has_expired():
                 # log: "closing expired connection"
+                self._connections.remove(connection)
+                closing_connections.append(connection)
+            elif not connection.is_idle() and not any(
+                connection is used for used in in_use
+            ):
+                # A connection that no request refers to any more, but which
+                # did not go back to idle: the request it was created for, or
+                # its last request, was cancelled at a point that left it
+                # behind. It would occupy its place in the pool for ever.
+                # log: "closing abandoned connection"
                 self._connections.remove(connection)
                 closing_connections.append(connection)
             elif (
